@@ -1,9 +1,23 @@
 (* C06 - string literals.
 
-   [escape] is Reduino's _escape_string_literal (transpile/parser.py:95): first every
-   backslash is doubled, then every double quote gets a backslash in front - two
-   successive whole-string str.replace passes, modelled as such (so that the order of the
-   two passes is part of the model).
+   [escape] is Reduino's _escape_string_literal (transpile/parser.py) as repaired by the
+   fix "escape control characters in string literals": ONE pass over the characters,
+
+     backslash -> backslash backslash        double quote -> backslash quote
+     LF 10 -> backslash n      CR 13 -> backslash r      TAB 9 -> backslash t
+     every other code point below 0x20, and DEL 0x7f -> backslash + THREE octal digits
+     anything else (all of 0x20..0x7e but the two above, and every code point >= 0x80)
+       -> the character itself; for a non-ASCII character the compiler stores its UTF-8
+          bytes, as before the repair.
+
+   (Python tests ord(ch) < 0x20; a code point is never negative.  The model tests
+   0 <= c < 0x20, which is the same on every string and makes [escape] well defined on the
+   whole of [list Z]: an - impossible - negative entry is passed through like any other
+   ordinary character, so that the theorems need no side condition.)
+
+   [escape_quotes_only] is the function BEFORE the repair (two str.replace passes, backslash
+   and double quote only).  It is kept as the contrast that shows what the repair is for
+   (Props/C06.v: C06_escape_control_needed, C06_old_escape_splice_corrupted).
 
    [clex_string] is a lexer for ONE ordinary (prefix-less, non-raw) C++ string literal that
    starts at a double quote, as g++ -std=gnu++17 reads it from a UTF-8 source file whose
@@ -22,7 +36,7 @@
        unknown escapes that g++ accepts with a pedantic warning), a numeric escape above
        255, and GCC's splice of backslash-blanks-newline are OUTSIDE the model: None.
        None of them can occur in the image of [escape], where every backslash is followed
-       by a backslash or a quote (lemmas in Proofs/EscapeP.v);
+       by a backslash, a quote, one of n r t, or three octal digits (Proofs/EscapeP.v);
      * trigraphs (question mark, question mark, slash = backslash, ...) are NOT replaced:
        GCC disables trigraphs by default in every gnu++NN mode (they are removed from the
        language in C++17), so such a sequence is three ordinary characters.  (With
@@ -52,11 +66,35 @@ Definition DQ  : Z := 34.   (* double quote *)
 Definition LF  : Z := 10.
 Definition CR  : Z := 13.
 
-Definition escape (s : text) : text :=
+(* before the repair: two successive whole-string replace passes *)
+Definition escape_quotes_only (s : text) : text :=
   replace1 DQ [BSL; DQ] (replace1 BSL [BSL; BSL] s).
+
+(* the other control characters: code points 0..31 (LF, CR, TAB are taken out first) and DEL *)
+Definition is_ctl (c : Z) : bool := ((0 <=? c) && (c <? 32)) || (c =? 127).
+
+(* backslash + exactly three octal digits (format spec 03o; c < 512) *)
+Definition oct3 (c : Z) : text := [BSL; 48 + c / 64; 48 + (c / 8) mod 8; 48 + c mod 8].
+
+Definition esc_char (c : Z) : text :=
+  if c =? BSL then [BSL; BSL]
+  else if c =? DQ then [BSL; DQ]
+  else if c =? LF then [BSL; 110]
+  else if c =? CR then [BSL; 114]
+  else if c =? 9 then [BSL; 116]
+  else if is_ctl c then oct3 c
+  else [c].
+
+Definition escape (s : text) : text := flat_map esc_char s.
+
+(* which characters get a two-character escape / a four-character octal escape *)
+Definition esc_simple (c : Z) : bool :=
+  (c =? BSL) || (c =? DQ) || (c =? LF) || (c =? CR) || (c =? 9).
+Definition esc_octal (c : Z) : bool := is_ctl c && negb (esc_simple c).
 
 (* the literal as it appears in the emitted C++: quote, escape s, quote *)
 Definition c_literal (s : text) : text := DQ :: escape s ++ [DQ].
+Definition c_literal_old (s : text) : text := DQ :: escape_quotes_only s ++ [DQ].
 
 (* ---------------------------------------------------------------- the C++ lexer *)
 
@@ -143,8 +181,8 @@ Definition clex_string (s : text) : option (text * text) :=
   | [] => None
   end.
 
-(* the guard of the round-trip theorem: no line-end character in the Python string
-   (str.isprintable() implies it: LF and CR are category Cc) *)
+(* the guard the round-trip theorem NEEDED before the repair (and still needs for
+   [escape_quotes_only]): no line-end character in the Python string *)
 Definition no_line_end (s : text) : Prop := forall c, In c s -> c <> LF /\ c <> CR.
 
 Fixpoint no_line_endb (s : text) : bool :=
